@@ -11,6 +11,9 @@
 (*   Accept-Encoding "gzip, deflate" exactly when compression is allowed   *)
 (*                  (it replaces a caller value: the client can only undo  *)
 (*                  what it announces); the caller's own value otherwise   *)
+(* `compress` below means: compression allowed by the settings AND the    *)
+(* library built with its compression feature (without it nothing is ever  *)
+(* announced and the caller's own value, if any, is kept).                 *)
 (* The caller's operations are <<name, value>> (set: replaces every        *)
 (* earlier value) or <<name, value, TRUE>> (append).  `before` are the     *)
 (* operations issued before the body call, `after` those issued after it.  *)
